@@ -1,12 +1,14 @@
 #!/bin/bash
 export VERIF_EVIDENCE_DIR=${VERIF_EVIDENCE_DIR:-/tmp/verif-evidence-scratch}; mkdir -p "$VERIF_EVIDENCE_DIR"
-# tools/mutant.sh <patch.diff> <property> [check args...]: apply a property-breaking patch to /repo, run the check, revert.
-# Sensitivity testing only; the patch is never committed to /repo.
+# tools/mutant.sh <patch.diff> <property> [check args...]: apply a property-breaking patch to a scratch worktree of /repo
+# (HEAD), run the check against that worktree (REPO override) and remove it. /repo itself is never touched, so checks
+# running in the background against /repo are not disturbed. Sensitivity testing only.
 patch=$(realpath "$1"); prop=$2; shift 2
 VERIF=$(cd "$(dirname "$0")/.." && pwd)
-[ -z "$(git -C /repo status --porcelain)" ] || { echo "/repo is not clean" >&2; exit 2; }
-git -C /repo apply "$patch" || exit 2
-trap 'git -C /repo checkout -- . ; git -C /repo clean -fdq' EXIT
-(cd /repo && GOFLAGS=-mod=mod GOPROXY=off GOSUMDB=off go build ./... ) || { echo "mutant does not build"; exit 2; }
-"$VERIF/check" "$prop" "$@"
+W=$(mktemp -d /tmp/mutant-wt.XXXXXX); rmdir "$W"
+git -C /repo worktree add -q --detach "$W" HEAD || exit 2
+trap 'git -C /repo worktree remove --force "$W" 2>/dev/null; rm -rf "$W"' EXIT
+git -C "$W" apply "$patch" || { echo "patch does not apply"; exit 2; }
+(cd "$W" && GOFLAGS=-mod=mod GOPROXY=off GOSUMDB=off go build ./... ) || { echo "mutant does not build"; exit 2; }
+REPO="$W" "$VERIF/check" "$prop" "$@"
 echo "exit=$?"
